@@ -154,3 +154,76 @@ Proof. exact ChangedFlag.changed_flag_read_in_scc_refuted. Qed.
 
 Print Assumptions c04_changed_flag_engine_is_run_plan. Print Assumptions c04_changed_flag_stratified_model.
 Print Assumptions c04_changed_flag_only_for_read_heads_refuted.
+
+(* ================= through the PLANNER model (Plan/PlanModel.v compile_model, Plan/PlanLat*.v) =================
+   The plan need not be dumped and checked per program: for every core program meeting wf_core and the decidable wf_lat (exact:
+   c03_wf_lat_exact) and every SCC partition meeting sccs_ok, the plan the planner model computes passes the validator AND the
+   lattice plan checks, so planner + lattice engine (serial and parallel models) compute the least fixed point / stratified model.
+   Tied by gen/plan_lat.py (model plan = dumped plan on lattice programs; hypotheses evaluated on every real desugared program). *)
+From Coq Require Import List ZArith Bool Arith Permutation.
+From AV Require Import Engine.Core Engine.Eval Engine.Validate Engine.Naive Engine.InterfaceAgg Engine.Strat.
+From AV Require Import LatEngine.LatSyntax LatEngine.LatEval LatEngine.LatPlan LatEngine.LatSem LatEngine.LatKeys LatEngine.LatMain.
+From AV Require Import LatEngine.LatAggEval LatEngine.LatAggTrans LatEngine.LatAggInv LatEngine.LatAggSem LatEngine.LatAggMain.
+From AV Require Import LatEngine.LatParModel LatEngine.LatParMain LatEngine.LatParAggModel LatEngine.LatParAggMain.
+From AV Require Import LatEngine.LatVocab LatEngine.LatExample.
+From AV Require Import Plan.PlanModel Plan.PlanWf Plan.PlanProofs Plan.PlanLatWf Plan.PlanLatProofs Plan.PlanLatMain.
+Import ListNotations.
+(* ================================================================ for Props/C04.v ================================================================ *)
+
+(* the two extra plan hypotheses of the C04-over-lattices theorems, for the computed plan *)
+Theorem c04_planner_alat_plan_ok : forall islat arities P sccs,
+  wf_lat islat arities P = true -> alat_plan_ok islat arities (compile_model arities P sccs) = true.
+Proof. exact compile_model_alat_plan_ok. Qed.
+
+Theorem c04_planner_plan_below : forall N arities P sccs,
+  prog_below N P = true -> plan_below N (compile_model arities P sccs) = true.
+Proof. exact compile_model_plan_below. Qed.
+
+Theorem c04_prog_N_is_bound : forall P, prog_below (prog_N P) P = true.
+Proof. exact prog_N_below. Qed.
+
+(* the stratified lattice model with the plan COMPUTED (serial engine with the MirBodyItem::Agg arm) *)
+Theorem c04_planner_lattice_stratified_model :
+  forall (V : Type) (I : linterp V) vagg islat lle jm shuffle ashuffle swap_oracle arities P N sccs fuel Rin st,
+  veqb_ok I -> (forall a l l', Permutation l l' -> vagg a l = vagg a l') ->
+  (forall r, islat r = true -> lat_laws (lle r) (jm r)) ->
+  (forall n l x, In x (shuffle n l) <-> In x l) -> (forall n l, Permutation (ashuffle n l) l) ->
+  arities_functional arities -> amonotone_program I islat lle N P ->
+  wf_core arities P = true -> wf_lat islat arities P = true -> prog_below N P = true -> sccs_ok P sccs = true ->
+  ainput_ok I islat lle arities Rin ->
+  arun_plan I vagg islat jm shuffle ashuffle swap_oracle fuel (compile_model arities P sccs) Rin = Some st ->
+  let strata := plan_strata P (compile_model arities P sccs) in
+  stratified strata = true
+  /\ (forall r, In r P <-> In r (concat strata))
+  /\ strat_lat_model I vagg islat lle strata Rin (l_rows st)
+  /\ keys_ok islat (l_rows st) /\ plain_nodup islat (l_rows st).
+Proof. exact planner_lat_agg_engine_stratified_model. Qed.
+
+(* ... for every run of the parallel model of the computed plan *)
+Theorem c04_planner_par_lattice_stratified_model :
+  forall (V : Type) (I : linterp V) vagg islat lle jm arities P N sccs Rin st,
+  veqb_ok I -> (forall a l l', Permutation l l' -> vagg a l = vagg a l') ->
+  (forall r, islat r = true -> lat_laws (lle r) (jm r)) ->
+  arities_functional arities -> amonotone_program I islat lle N P ->
+  wf_core arities P = true -> wf_lat islat arities P = true -> prog_below N P = true -> sccs_ok P sccs = true ->
+  ainput_ok I islat lle arities Rin ->
+  par_lat_agg_run_plan I vagg islat jm (compile_model arities P sccs) Rin st ->
+  let strata := plan_strata P (compile_model arities P sccs) in
+  stratified strata = true
+  /\ (forall r, In r P <-> In r (concat strata))
+  /\ strat_lat_model I vagg islat lle strata Rin (l_rows st)
+  /\ keys_ok islat (l_rows st) /\ plain_nodup islat (l_rows st).
+Proof. exact planner_par_lat_agg_engine_stratified_model. Qed.
+
+(* ... and the strata are the SCCs of the partition handed to the planner *)
+Theorem c04_planner_strata_are_sccs : forall arities P sccs, sccs_ok P sccs = true ->
+  Forall2 (fun stratum scc => forall r, In r stratum <-> exists j, In j scc /\ nth_error P j = Some r)
+          (plan_strata P (compile_model arities P sccs)) sccs.
+Proof. exact planner_lat_strata_are_sccs. Qed.
+
+Print Assumptions c04_planner_alat_plan_ok.
+Print Assumptions c04_planner_plan_below.
+Print Assumptions c04_prog_N_is_bound.
+Print Assumptions c04_planner_lattice_stratified_model.
+Print Assumptions c04_planner_par_lattice_stratified_model.
+Print Assumptions c04_planner_strata_are_sccs.
